@@ -18,6 +18,7 @@ import (
 	"runtime/debug"
 	"runtime/pprof"
 	"sort"
+	"strconv"
 	"strings"
 	"sync"
 	"sync/atomic"
@@ -112,6 +113,20 @@ func TestChild(t *testing.T) {
 	registerEngines()
 	// every Badger transaction start is a yield point (see overlay/gen.py)
 	badgerdb.VerifYield = func(kind string) { theSim.yield("badger." + kind) }
+	if cfg.LockYield {
+		// every mutex acquisition made directly from DVID's own sources is a yield point too (see overlay/gen.py)
+		sync.VerifLockHook = func(kind string) {
+			_, file, line, ok := runtime.Caller(2)
+			if !ok {
+				return
+			}
+			i := strings.Index(file, "/repo/")
+			if i < 0 {
+				return
+			}
+			theSim.yield(kind + " " + file[i+6:] + ":" + strconv.Itoa(line))
+		}
+	}
 
 	// Deterministic UUIDs: the generator's random source is a seam of the
 	// twinj/uuid package.  Seeded per lifetime so UUIDs never repeat.
